@@ -209,11 +209,17 @@ func (f *Family) Explore(scn *Scenario, tier string, maxStates int) *ScenarioSta
 					break
 				}
 				st.Cycles++
+				if res.Panic != "" {
+					st.Extra["cycles_panicked"]++
+					if len(st.SampleTrace) < 4 {
+						st.SampleTrace = append(st.SampleTrace, fmt.Sprintf("PANIC at %v + cycle[%s]: %.300s", n.path, j.cfg.Label(), res.Panic))
+					}
+				}
 				if j.level > 0 {
 					st.FaultCycles++
 				}
 				// determinism: replay the first cycle of every state once more
-				if j.level == 0 && st.Cycles%7 == 1 {
+				if j.level == 0 && st.Cycles%7 == 1 && res.Panic == "" {
 					res2, _, ok2 := runCycle(n, j.cfg)
 					if ok2 {
 						st.Replays++
@@ -248,6 +254,9 @@ func (f *Family) Explore(scn *Scenario, tier string, maxStates int) *ScenarioSta
 						v.Replay = mkReplay(append(append([]Step{}, n.path...), Step{Kind: "cycle", Cfg: &cfgCopy}), res.Decisions)
 						st.Violations = append(st.Violations, v)
 					}
+				}
+				if res.Panic != "" {
+					continue // the process would have crashed: no successor from a half-finished cycle
 				}
 				succ := res.After
 				if f.MacroEnv {
